@@ -326,6 +326,16 @@ func genC07Authz(g *Gen) any {
 	for i := 0; i < n; i++ {
 		sc.Clients = append(sc.Clients, C15Client{User: g.Int(0, nu-1), Session: uint32(g.Pick(1, 2, 0x7fffffff)), Browser: []string{"chrome", "firefox", "safari"}[g.Rng.IntN(3)]})
 	}
+	for u, usr := range sc.Users {
+		if usr.Pinned && g.Bool(0.5) {
+			// one more connection for the pinned (idle) session, often long after the
+			// user stopped being authorised and an upload round has gone by
+			sc.Clients = append(sc.Clients, C15Client{User: u, Session: 0x50000000 + uint32(u), Browser: "firefox", Join: true})
+			if (usr.AdminZero != 0 || usr.ExpiryS < 60) && g.Bool(0.7) {
+				sc.BurstDelayS = 100
+			}
+		}
+	}
 	return sc
 }
 
